@@ -3,7 +3,7 @@
    the public key of the voucher's device certificate (COSE model, C13), its nonce is the one issued in this session,
    its UEID names the voucher's GUID, and the key-exchange parameter is well formed; the harness constructs requests
    with and without each of these and reports the fact accordingly. *)
-From FDO Require Import Cbor.Typed Cose.Sign1 Fdo.Server Fdo.ServerFacts Fdo.Owner Fdo.OwnerFacts.
+From FDO Require Import Cbor.Typed Cose.Sign1 Fdo.Server Fdo.ServerFacts Fdo.Owner Fdo.OwnerFacts Fdo.OwnerHonest Cbor.RoundTripWf.
 Local Open Scope N_scope.
 
 (* SetupDevice (65) answers only a ProveDevice that passes every check, in a TO2 session opened by an accepted 60 *)
@@ -64,6 +64,19 @@ Theorem C02_proof_bytes_complete : forall O_der O_rfc O_verify devkey guid nonce
   prove_device_ok O_der O_rfc O_verify devkey guid nonce xb_ok body = true.
 Proof. exact prove_device_complete. Qed.
 Print Assumptions C02_proof_bytes_complete.
+
+(* the honest device is never refused: its well-formed token, ENCODED, passes (codec round trip + completeness) *)
+Theorem C02_honest_accepted : forall O_der O_rfc O_verify devkey guid nonce xb_ok fe fe' prot unprot pl sig eat body xb sn,
+  RoundTripWf.wf O_der 0 ty_token (VList [VMap prot; VMap unprot; VRaw pl; VBytes sig]) ->
+  enc fe ty_token (VList [VMap prot; VMap unprot; VRaw pl; VBytes sig]) = Ok body ->
+  RoundTripWf.wf O_der 0 ty_eat (VMap eat) -> enc fe' ty_eat (VMap eat) = Ok pl ->
+  Crypter.parse_hdr O_der O_rfc (TFixed 16) (-259)%Z unprot = Ok (Some sn) ->
+  sign1_verify O_der O_rfc O_verify TRaw TBytes devkey prot (Some (VRaw pl)) None sig (VBytes []) = Ok true ->
+  claim 10 eat = Some (VBytes nonce) -> claim 256 eat = Some (VBytes (byte_of_N 1 :: guid)) ->
+  claim (-257) eat = Some (VList [VBytes xb]) -> xb_ok xb = true ->
+  prove_device_ok O_der O_rfc O_verify devkey guid nonce xb_ok body = true.
+Proof. exact honest_prove_device. Qed.
+Print Assumptions C02_honest_accepted.
 
 (* non-vacuity: with the proof, service; without (wrong signer / replayed token / plaintext 66), errors only *)
 Example C02_with_and_without :
